@@ -1,4 +1,7 @@
 """C17 — typed encoding and decoding are inverse and route-independent (DESIGN.md §5 C17)."""
+import concurrent.futures
+import hashlib
+import os
 import vlib
 import wire
 import typed
@@ -23,14 +26,53 @@ def split_out(impl):
     return a_ok, a_val, b_ok, b_val, body, flags.split()
 
 
-def canon(s):
-    return wire.render(wire.canon(wire.strip_tag(wire.parse_all(s)[0], "noesc")))
+def family_flags():
+    """the slices share harness/ty_family.hpp, which build_harness does not hash: make it part of the cache key"""
+    h = hashlib.sha256(open(os.path.join(vlib.ROOT, "harness", "ty_family.hpp"), "rb").read()).hexdigest()[:12]
+    return ("-DTY_FAMILY_REV=0x" + h,)
+
+
+def prebuild(ctx):
+    """the four slices are heavy template TUs: compile them side by side (correspond() then finds them in the cache)"""
+    vlib._TREE_HASH = vlib._TREE_HASH or vlib.tree_hash()
+    with concurrent.futures.ThreadPoolExecutor(len(typed.PARTS)) as ex:
+        list(ex.map(lambda h: vlib.build_harness(h, family_flags()), list(typed.PARTS)))
+
+
+def unordered(d, v):
+    """v with the elements of every unordered_set node sorted (their order is not defined, and differs between the routes)"""
+    k = d[0]
+    if k in ("opt", "ptr"):
+        return v if v is None else unordered(d[1], v)
+    if k in typed.SEQS + ("array",) and isinstance(v, list):
+        xs = [unordered(d[1], x) for x in v]
+        return sorted(xs, key=wire.render) if k == "uset" else xs
+    if k in ("tuple", "pair") and isinstance(v, list):
+        ds = d[1] if k == "tuple" else [d[1], d[2]]
+        return [unordered(ds[i], x) if i < len(ds) else x for i, x in enumerate(v)]
+    if k == "map" and isinstance(v, Obj):
+        return Obj([(n, unordered(d[1], x)) for n, x in v.members])
+    if k == "struct" and isinstance(v, Obj):
+        known = {n: md for n, md, _ in d[1]}
+        return Obj([(n, unordered(known[n], x) if n in known else x) for n, x in v.members])
+    return v
+
+
+HAS_USET = {tid for tid, d in typed.TYPES.items() if typed.contains(d, "uset")}
+
+
+def canon(s, tid=None):
+    v = wire.canon(wire.strip_tag(wire.parse_all(s)[0], "noesc"))
+    if tid in HAS_USET:
+        v = unordered(typed.TYPES[tid], v)
+    return wire.render(v)
 
 
 def oracle(line, impl, model, ref=None):
     if not impl.startswith("A:"):
         return "an exception escaped a try_ conversion or the harness aborted: " + impl[:120]
     a_ok, a_val, b_ok, b_val, body, flags = split_out(impl)
+    tid = line.split()[1]
     if " B:unencodable" in body:
         return None                      # the format cannot hold the input (e.g. UBJSON and integers above INT64_MAX)
     for f in flags:
@@ -38,7 +80,7 @@ def oracle(line, impl, model, ref=None):
             return "the typed routes disagree with themselves: " + f
     if a_ok != b_ok:
         return "the basic_json route %s, the streaming route %s" % ("converts" if a_ok else "reports a conversion error", "converts" if b_ok else "reports a conversion error")
-    if a_ok and canon(a_val) != canon(b_val):
+    if a_ok and canon(a_val, tid) != canon(b_val, tid):
         return "the two routes decode different values: %s vs %s" % (a_val[:150], b_val[:150])
     if model is None or model == "unjudged" or model == "bad-op":
         return None
@@ -49,7 +91,7 @@ def oracle(line, impl, model, ref=None):
     want = model[3:]
     if not a_ok:
         return "a value of the type is rejected by both routes (expected %s)" % want[:150]
-    if canon(a_val) != canon(want):
+    if canon(a_val, tid) != canon(want, tid):
         return "the decoded value %s is not the value that was encoded (%s)" % (a_val[:150], want[:150])
     return None
 
@@ -63,13 +105,19 @@ def _match_d57(stream, line, impl, model):
     return model == "unjudged" and a_ok and not b_ok and wants_string_somewhere(line)
 
 
+WANTS_STRING = {tid for tid, d in typed.TYPES.items() if typed.contains(d, "str")}
+
+
 def wants_string_somewhere(line):
-    tid = line.split()[1]
-    return tid in ("str", "tup", "vos", "s1", "s2", "s3", "pair", "sets", "var", "sps1", "vs1", "ms3")
+    return line.split()[1] in WANTS_STRING
 
 
 def nontrivial(line, impl):
     return line if impl.startswith("A:ok") and len(line) > 40 else ("E" + line if impl.startswith("A:err") else None)
+
+
+def formats_of(tid):
+    return FORMATS + (["bson"] if tid in typed.OBJECT_ROOTED else [])
 
 
 def gen_lines(rng, n):
@@ -80,26 +128,68 @@ def gen_lines(rng, n):
         v = typed.gen(rng, d)
         if rng.random() < 0.35:
             v = typed.misshape(rng, d, v)
-        fmt = rng.choice(FORMATS + (["bson"] if tid in typed.OBJECT_ROOTED else []))
+        fmt = rng.choice(formats_of(tid))
         if fmt == "bson" and not isinstance(v, Obj):
             fmt = "cbor"
         out.append("ty %s %s | %s" % (tid, fmt, wire.render(v)))
     return out
 
 
+def every_type_lines(rng, per):
+    """every type x every format it can be held in x fitting values (the empty container, the full one, generated ones): no (type, format,
+    route) combination depends on the seed"""
+    out = []
+    for tid, d in typed.TYPES.items():
+        vals = [typed.gen(rng, d, 0), typed.gen_full(rng, d)] + [typed.gen(rng, d) for _ in range(per)]
+        for fmt in formats_of(tid):
+            for v in vals:
+                if fmt == "bson" and not isinstance(v, Obj):
+                    continue
+                out.append("ty %s %s | %s" % (tid, fmt, wire.render(v)))
+    return out
+
+
+def shape_lines(rng, rounds):
+    """every fixed-shape node (pair, tuple<N>, array<T,N>; at the root or nested) of every type x every format x an array that is empty,
+    one short, exact, one and two too long (extra elements of the element type and foreign ones); both routes in the harness"""
+    out = []
+    for tid, d in typed.TYPES.items():
+        for _ in range(rounds):
+            for v, path, n, m in typed.shape_cases(rng, d):
+                for fmt in formats_of(tid):
+                    if fmt == "bson" and not isinstance(v, Obj):
+                        continue
+                    out.append("ty %s %s | %s" % (tid, fmt, wire.render(v)))
+    return out
+
+
+def corr(ctx, stream, lines):
+    """route every line to the harness slice that holds its type"""
+    by = {h: [] for h in typed.PARTS}
+    for l in lines:
+        by[typed.HARNESS_OF.get(l.split()[1], "ty")].append(l)
+    for h, ls in by.items():
+        if ls:
+            ctx.correspond("%s/%s" % (stream, h), h, ls, oracle, nontrivial, compare=lambda l, i, m: True, extra_flags=family_flags())
+
+
 def streams(ctx, rng, scale):
-    lw = vlib.witness_lines(PROP)
-    ctx.correspond("finding-witnesses", HARNESS, lw, oracle, nontrivial, compare=lambda l, i, m: True)
-    ctx.correspond("typed-conversions", HARNESS, gen_lines(rng, 5000 * scale), oracle, nontrivial, compare=lambda l, i, m: True)
+    prebuild(ctx)
+    corr(ctx, "finding-witnesses", vlib.witness_lines(PROP))
+    corr(ctx, "every-type-every-format", every_type_lines(rng, 3 * scale))
+    corr(ctx, "fixed-shapes", shape_lines(rng, scale))
+    corr(ctx, "typed-conversions", gen_lines(rng, 5000 * scale))
 
 
 def run(ctx):
     ctx.prove(MODULES, leancheck=(ctx.tier == "thorough"))
-    ctx.cov["rule"] = ("23 C++ types (integers of four widths, string, bool, vector, map, tuple, pair, std::array, optional, shared_ptr, set, enum, variant, "
-                       "N_MEMBER and ALL_MEMBER structs incl. nested ones, containers of structs) x JSON/CBOR/MessagePack/UBJSON/BSON; values generated from the type "
+    ctx.cov["rule"] = ("%d C++ types (integers of four widths, string, bool, vector, forward_list, list, deque, map, unordered_map, set, multiset, unordered_set, "
+                       "tuple<1..3>, pair, std::array, optional, shared_ptr, enum, variant, N_MEMBER and ALL_MEMBER structs incl. nested ones; pairs, tuples, arrays "
+                       "and optionals nested in each other and in containers) x JSON/CBOR/MessagePack/UBJSON and BSON for object-rooted types; every type in every "
+                       "format with fitting values; every fixed-shape node with arrays that are too short, exact and too long; values generated from the type "
                        "descriptor (boundary integers, absent/present optionals, unknown and shuffled members) and mis-shaped ones (wrong kind at any depth, missing "
-                       "mandatory member, short/long tuple and array, bad enumerator); both routes, try_ variants, typed re-encoding and round trip in the harness; "
-                       "result judged against the Lean conversion model. non-trivial = a converted value or a conversion error")
+                       "mandatory member, bad enumerator); both routes, try_ variants, typed re-encoding and round trip in the harness; "
+                       "result judged against the Lean conversion model. non-trivial = a converted value or a conversion error" % len(typed.TYPES))
     rng = vlib.rng_for(ctx.seed, "c17")
     streams(ctx, rng, 1 if ctx.tier == "quick" else 8)
 
